@@ -446,6 +446,23 @@ func runC10(cx *CheckCtx) {
 				}
 			}
 			cx.decide(okDepth, "ownership-change", "nns.Register/not-a-tld", "the record is stored only for a name of at least two labels", "register can store a top-level name (TLDs are the committee's, through registerTLD)", namePut.Where(w))
+			// the liveness helper is asked for every enclosing level (first = 1) and the TLD marker read
+			// is the one of the last label
+			okLvl := false
+			for _, ps := range a.Sites(func(s *Site) bool { return s.Inlined && s.Callee == fq(nnsParentExpiredFn(cx)) }) {
+				if n, isC := ps.Args[1].IntConst(); isC && n == 1 && a.holdsAt(namePut.In, -a.litB(ps.Val)) {
+					okLvl = true
+				}
+			}
+			okRootKey := false
+			for _, f := range a.unitFacts(namePut.In) {
+				if f.kind == KNil && !f.pos && f.A.Op == "read" && len(f.A.Args) > 0 && keyFamily(f.A.Args[0]) == pfxRoot {
+					if kp := keyParts(f.A.Args[0]); len(kp) == 2 && kp[1].Op == "index" && splitOf(a, kp[1].Args[0], name) && kp[1].Args[1] == tb.binop(token.SUB, tb.mk("len", "", 0, kp[1].Args[0]), tb.constInt(1), intType) {
+						okRootKey = true
+					}
+				}
+			}
+			cx.decide(okLvl && okRootKey, "ownership-change", "nns.Register/levels", "liveness asked from level 1 (the directly enclosing name) up, TLD marker of the last label", "register does not check the directly enclosing name (or reads the TLD marker of another label)", namePut.Where(w))
 			cx.decide(okPar && okTLD, "ownership-change", "nns.Register/parents-alive", "the record is stored only with the TLD present and no enclosing name expired", "a name can be registered under an expired (or missing) parent or a missing TLD", namePut.Where(w))
 			cx.decide(okTake, "ownership-change", "nns.Register/takeover-only-expired", "an existing record is taken over only with now ≥ its expiration established", "a registered, unexpired name can be taken over", relDel.Where(w))
 			// D5 (C12): conflicting parent record is in C12
@@ -681,8 +698,10 @@ func runC10(cx *CheckCtx) {
 						alive = true
 					}
 				}
-				if f.kind == KB && !f.pos && a.resultSite(f.A, fq(nnsParentExpiredFn(cx))) != nil {
-					parents = true
+				if cs := a.resultSite(f.A, fq(nnsParentExpiredFn(cx))); f.kind == KB && !f.pos && cs != nil {
+					if n, isC := cs.Args[1].IntConst(); isC && n == 1 {
+						parents = true // asked from the directly enclosing name up
+					}
 				}
 			}
 			if !alive || !parents {
@@ -1314,8 +1333,12 @@ func runC12(cx *CheckCtx) {
 		for _, s := range a.Sites(func(s *Site) bool { return s.Callee == "storage.Find" }) {
 			ps := keyParts(s.Args[1])
 			if len(ps) == 2 && ripemdArg(ps[1]) != nil && strings.Contains(ripemdArg(ps[1]).String(), name.String()) {
-				if sl := ripemdArg(ps[1]); sl.Op == "slice" && sl.Args[0] == name {
-					okS = true
+				if sl := ripemdArg(ps[1]); sl.Op == "slice" && sl.Args[0] == name && len(sl.Args) == 3 && sl.Args[2].Op == "none" {
+					// from the byte after the first label and its dot
+					frs := fnParam(tb, fn, 2)
+					if sl.Args[1] == tb.binop(token.ADD, tb.mk("len", "", 0, tb.mk("index", "", 0, frs, tb.constInt(0))), tb.constInt(1), intType) {
+						okS = true
+					}
 				}
 			}
 		}
@@ -1398,8 +1421,10 @@ func runC12(cx *CheckCtx) {
 							}
 						}
 					}
-					if f.kind == KB && !f.pos && a.resultSite(f.A, pexp) != nil {
-						parents = true
+					if cs := a.resultSite(f.A, pexp); f.kind == KB && !f.pos && cs != nil {
+						if n, isC := cs.Args[1].IntConst(); isC && n == 1 {
+							parents = true
+						}
 					}
 				}
 				cx.decide(alive && parents, "record-getter-alive", r.name+"/"+siteConstruct(a, s), "records of "+T.pretty()+" are scanned only with its own and its parents' liveness established", r.name+" reads the records of "+T.pretty()+" without establishing now < its expiration (and live parents): records of an expired name stay reachable", s.Where(w))
@@ -1471,6 +1496,78 @@ func runC12(cx *CheckCtx) {
 			}
 			if nHdr != 1 {
 				ok, why = false, "expected one loop over the suffix levels"
+			}
+		}
+		// the suffix of level i starts after the first i labels and their dots: sum starts at 0 and
+		// advances by len(label i) + 1; levels 0 … len(labels) − 2
+		if ok {
+			okArith := false
+			for _, h := range fn.Blocks {
+				if !isLoopHeader(h) {
+					continue
+				}
+				ifi, isIf := h.Instrs[len(h.Instrs)-1].(*ssa.If)
+				if !isIf {
+					continue
+				}
+				ct := tb.Term(tb.root, ifi.Cond)
+				if ct.Op != "bin" || ct.Name != "<" || len(ct.Args) != 2 || ct.Args[0].Op != "phi" {
+					continue
+				}
+				i := ct.Args[0]
+				var frs *Term
+				if ct.Args[1].Op == "sum" {
+					ct.Args[1].walk(func(x *Term) bool {
+						if x.Op == "len" {
+							frs = x.Args[0]
+						}
+						return true
+					})
+				}
+				if frs == nil || ct.Args[1] != tb.binop(token.SUB, tb.mk("len", "", 0, frs), tb.constInt(1), intType) {
+					continue
+				}
+				iOK := false
+				{
+					z, st := false, false
+					for _, al := range tb.Alts(i) {
+						if n, isC := al.IntConst(); isC && n == 0 {
+							z = true
+						} else if al == tb.binop(token.ADD, i, tb.constInt(1), intType) {
+							st = true
+						} else {
+							z = false
+						}
+					}
+					iOK = z && st
+				}
+				// the sum variable: the low bound of the returned / looked-up suffix
+				for _, ex := range a.Exits() {
+					if len(ex.Results) != 1 || ex.Results[0].Op != "slice" || ex.Results[0].Args[0] != name {
+						continue
+					}
+					sum := ex.Results[0].Args[1]
+					if sum.Op != "phi" {
+						continue
+					}
+					z, st := false, false
+					for _, al := range tb.Alts(sum) {
+						if n, isC := al.IntConst(); isC && n == 0 {
+							z = true
+						} else if d := tb.binop(token.SUB, tb.binop(token.SUB, al, sum, intType), tb.constInt(1), intType); d.Op == "len" &&
+							(d.Args[0].Op == "index" && d.Args[0].Args[0] == frs && d.Args[0].Args[1] == i || d.Args[0].Op == "elem" && d.Args[0].Args[0] == frs && tb.indexOfElem(d.Args[0]) == i) {
+							st = true
+						} else {
+							z = false
+						}
+					}
+					if iOK && z && st {
+						okArith = true
+					}
+				}
+			}
+			if !okArith {
+				ok, why = false, "the suffix of level i does not start after the first i labels and their dots (or the levels are not 0 … len−2)"
 			}
 		}
 		cx.decide(ok, "record-owner", "nns.tokenIDFromName", "the longest registered, unexpired proper suffix, else the name itself", "nns.tokenIDFromName: "+why+" — records are filed under (and read from) another token", w.pos(fn.Pos()))
